@@ -216,6 +216,12 @@ class BaseTemplate:
         for name, function in functions.items():
             setattr(self, "_" + name, function)
 
+        # Render functions (macros) of a previous compilation which the
+        # new one no longer defines must not stay around
+        for name in list(self.__dict__):
+            if name.startswith("_render") and name[1:] not in functions:
+                delattr(self, name)
+
         self._cooked = True
 
         if self.keep_body:
